@@ -186,7 +186,7 @@ def diff_fields(got, exp, got_recs, exp_recs):
     return out
 
 
-INV_NAMES = ['wfx', 'cap', 'clk', 'svc', 'srv', 'idle', 'rows', 'blk', 'who', 'hzn']
+INV_NAMES = ['wfx', 'cap', 'clk', 'svc', 'srv', 'idle', 'rows', 'blk', 'who', 'hzn', 'cnt']
 
 
 def check_trace(tr, drv, max_frames=80, mask=None, inv_mask=None):
